@@ -325,6 +325,17 @@ impl ReadCursor {
     }
 }
 
+impl Drop for ReadCursor {
+    fn drop(&mut self) {
+        // the list that is current when the queue goes away was never retired
+        unsafe {
+            let last_group = self.readers.load(Ordering::Relaxed);
+            ptr::read(last_group);
+            alloc::deallocate(last_group, 1);
+        }
+    }
+}
+
 #[cfg(multiqueue2_verif)]
 #[path = "verif_hooks/read_cursor_access.rs"]
 pub mod verif_access;
